@@ -135,6 +135,9 @@ VFS(xs, cs, i) == IF i > Len(cs) THEN FALSE
                   ELSE IF cs[i].k = "omitempty" THEN (IF Len(xs) = 0 THEN FALSE ELSE VFS(xs, cs, i + 1))
                   ELSE Violates(Len(xs), cs[i]) \/ VFS(xs, cs, i + 1)
 ListValidationFails(xs, cs) == VFS(xs, cs, 1)
+\* `required` on a nested struct member (struct validation): a by-value member is unset when it is the zero struct (absent, or
+\* present with zero fields only); a pointer member is unset only when absent
+NestedRequiredFails(ptr, nx) == IF ptr THEN nx = "absent" ELSE nx \in {"absent", "0"}
 \* C09: a configuration value that is missing: required -> start-up error (never a panic), optional -> the field keeps its zero value
 MissingOutcome(required) == IF required THEN "err" ELSE "zero"
 =============================================================================
